@@ -1,0 +1,247 @@
+//go:build verif
+
+package llmsetup
+
+import (
+	"os"
+	"path/filepath"
+	"strings"
+
+	vs "github.com/mazrean/kessoku/internal/verifspec"
+)
+
+// ---------------------------------------------------------------------------
+// Ghost model of the file system (C15, C16).
+//
+//	fsKind[p]    0 = absent, 1 = directory, 2 = regular file
+//	fsContent[p] bytes of a regular file
+//	fsMode[p]    permission bits
+//	fhName[f]    path an open *os.File refers to
+//	fsTemps[p]   p was created by os.CreateTemp
+//	fsFaults     number of file-system steps that have failed so far
+//
+// The functions marked //kvc:model are the *trusted* semantics of the os / io
+// calls used by the installer: every step may fail (nondeterministically, or
+// because the state forbids it) and vs.CrashPoint marks an instant at which the
+// process may die with exactly the effects made so far.
+// ---------------------------------------------------------------------------
+
+var (
+	fsKind    = map[string]int{}
+	fsContent = map[string][]byte{}
+	fsMode    = map[string]int{}
+	fhName    = map[*os.File]string{}
+	fsTemps   = map[string]bool{}
+	fsFaults  int
+)
+
+const (
+	kindAbsent = 0
+	kindDir    = 1
+	kindFile   = 2
+)
+
+// pathJoin / simpleName are uninterpreted: only the laws stated where they are used are assumed.
+//
+//kvc:pure pathJoin
+func pathJoin(dir, name string) string { return filepath.Join(dir, name) }
+
+// simpleName: a real file name - non-empty, no separator, not "." or "..".
+//
+//kvc:pure simpleName
+func simpleName(name string) bool {
+	return name != "" && name != "." && name != ".." && !strings.ContainsRune(name, filepath.Separator)
+}
+
+//kvc:pure pathBase
+func pathBase(p string) string { return filepath.Base(p) }
+
+// Law of filepath.Join / filepath.Base on simple (separator-free) names.
+//
+//kvc:axiom
+func axiomBaseOfJoin() bool {
+	return vs.ForallString2(func(d, n string) bool { return vs.Implies(simpleName(n), pathBase(pathJoin(d, n)) == n) })
+}
+
+// A child is neither its parent nor an ancestor of its parent.
+//
+//kvc:axiom
+func axiomChildBelowParent() bool {
+	return vs.ForallString2(func(d, n string) bool {
+		return vs.Implies(simpleName(n), pathJoin(d, n) != d && !pathUnder(pathJoin(d, n), d))
+	})
+}
+
+//kvc:pure pathUnder
+func pathUnder(base, p string) bool {
+	rel, err := filepath.Rel(base, p)
+	return err == nil && !strings.HasPrefix(rel, "..")
+}
+
+//kvc:model path/filepath.Join
+func model_filepath_Join(elem ...string) string {
+	if len(elem) == 2 {
+		return pathJoin(elem[0], elem[1])
+	}
+	return vs.NondetString()
+}
+
+//kvc:contract os.MkdirAll
+func contract_os_MkdirAll(path string, perm os.FileMode) (err error) {
+	vs.Effect()
+	vs.Modifies(fsKind, fsMode, fsFaults)
+	vs.Ensures("existing_untouched", vs.ForallString(func(q string) bool {
+		return vs.Implies(vs.Old(fsKind[q]) != kindAbsent, fsKind[q] == vs.Old(fsKind[q]) && fsMode[q] == vs.Old(fsMode[q]))
+	}))
+	vs.Ensures("creates_only_dirs_above_path", vs.ForallString(func(q string) bool {
+		return vs.Implies(vs.Old(fsKind[q]) == kindAbsent && fsKind[q] != kindAbsent, fsKind[q] == kindDir && (q == path || pathUnder(q, path)))
+	}))
+	vs.Ensures("ok_is_dir", vs.Implies(err == nil, fsKind[path] == kindDir && fsFaults == vs.Old(fsFaults)))
+	vs.Ensures("err_counts", vs.Implies(err != nil, fsFaults == vs.Old(fsFaults)+1))
+	return
+}
+
+//kvc:model os.CreateTemp
+func model_os_CreateTemp(dir, pattern string) (*os.File, error) {
+	if vs.NondetBool() || fsKind[dir] != kindDir {
+		fsFaults++
+		return nil, vs.SomeError()
+	}
+	base := vs.NondetString()
+	vs.Assume(simpleName(base) && strings.HasPrefix(base, ".tmp-")) // the pattern is ".tmp-*"
+	t := pathJoin(dir, base)
+	vs.Assume(fsKind[t] == kindAbsent) // CreateTemp picks an unused name
+	f := new(os.File)
+	fsKind[t] = kindFile
+	fsContent[t] = nil
+	fsMode[t] = 0o600
+	fsTemps[t] = true
+	fhName[f] = t
+	vs.CrashPoint("CreateTemp")
+	return f, nil
+}
+
+//kvc:model (*os.File).Name
+func model_File_Name(f *os.File) string { return fhName[f] }
+
+//kvc:model (*os.File).Write
+func model_File_Write(f *os.File, b []byte) (int, error) {
+	t := fhName[f]
+	vs.Assert("write_goes_to_an_empty_temp_file", fsKind[t] == kindFile && len(fsContent[t]) == 0)
+	if vs.NondetBool() {
+		k := vs.NondetInt()
+		vs.Assume(0 <= k && k <= len(b))
+		fsContent[t] = b[:k] // a failed (or interrupted) write leaves some prefix
+		fsFaults++
+		vs.CrashPoint("Write.partial")
+		return k, vs.SomeError()
+	}
+	fsContent[t] = b
+	vs.CrashPoint("Write")
+	return len(b), nil
+}
+
+//kvc:model (*os.File).Sync
+func model_File_Sync(f *os.File) error {
+	if vs.NondetBool() {
+		fsFaults++
+		return vs.SomeError()
+	}
+	return nil
+}
+
+//kvc:model (*os.File).Close
+func model_File_Close(f *os.File) error {
+	if vs.NondetBool() {
+		fsFaults++
+		return vs.SomeError()
+	}
+	return nil
+}
+
+//kvc:model os.Chmod
+func model_os_Chmod(name string, mode os.FileMode) error {
+	if vs.NondetBool() || fsKind[name] == kindAbsent {
+		fsFaults++
+		return vs.SomeError()
+	}
+	fsMode[name] = int(mode)
+	vs.CrashPoint("Chmod")
+	return nil
+}
+
+//kvc:model os.Rename
+func model_os_Rename(oldpath, newpath string) error {
+	if vs.NondetBool() || fsKind[oldpath] != kindFile || fsKind[newpath] == kindDir {
+		fsFaults++
+		return vs.SomeError()
+	}
+	// atomic replace
+	fsKind[newpath] = kindFile
+	fsContent[newpath] = fsContent[oldpath]
+	fsMode[newpath] = fsMode[oldpath]
+	if oldpath != newpath {
+		fsKind[oldpath] = kindAbsent
+	}
+	vs.CrashPoint("Rename")
+	return nil
+}
+
+//kvc:model os.Remove
+func model_os_Remove(name string) error {
+	if vs.NondetBool() || fsKind[name] == kindAbsent {
+		fsFaults++
+		return vs.SomeError()
+	}
+	fsKind[name] = kindAbsent
+	vs.CrashPoint("Remove")
+	return nil
+}
+
+// ---------------------------------------------------------------------------
+// C15: InstallFile
+// ---------------------------------------------------------------------------
+
+func finalPath(targetDir, fileName string) string { return pathJoin(targetDir, fileName) }
+
+// installed: the destination holds exactly the new content with its final permissions.
+func installed(p string, content []byte) bool {
+	return fsKind[p] == kindFile && vs.SameBytes(fsContent[p], content) && fsMode[p] == int(FileMode)
+}
+
+// unchangedEntry: path q is what it was when the contract's function was entered
+// (content and mode only mean something for entries that exist).
+func unchangedEntry(q string) bool {
+	return fsKind[q] == vs.Old(fsKind[q]) &&
+		(vs.Old(fsKind[q]) == kindAbsent || (vs.SameBytes(fsContent[q], vs.Old(fsContent[q])) && fsMode[q] == vs.Old(fsMode[q])))
+}
+
+//kvc:contract InstallFile
+func contract_InstallFile(targetDir string, fileName string, content []byte) (retErr error) {
+	vs.Requires(simpleName(fileName) && !strings.HasPrefix(fileName, ".tmp-"))
+	// at every instant (crash point): the destination is its previous self or entirely the new file ...
+	vs.Monitor("destination_old_or_new", unchangedEntry(finalPath(targetDir, fileName)) || installed(finalPath(targetDir, fileName), content))
+	// ... and nothing else that existed before is touched
+	vs.Monitor("others_untouched", vs.ForallString(func(q string) bool {
+		return vs.Implies(q != finalPath(targetDir, fileName) && vs.Old(fsKind[q]) != kindAbsent, unchangedEntry(q))
+	}))
+	vs.Ensures("success_installs", vs.Implies(retErr == nil, installed(finalPath(targetDir, fileName), content)))
+	vs.Ensures("success_leaves_no_temp", vs.Implies(retErr == nil, vs.ForallString(func(q string) bool {
+		return vs.Implies(fsTemps[q] && !vs.Old(fsTemps[q]), fsKind[q] == kindAbsent)
+	})))
+	vs.Ensures("every_failure_reported", vs.Implies(retErr == nil, fsFaults == vs.Old(fsFaults)))
+	vs.Ensures("error_keeps_previous_destination", vs.Implies(retErr != nil && fsFaults <= vs.Old(fsFaults)+1, unchangedEntry(finalPath(targetDir, fileName))))
+	vs.Ensures("error_leaves_no_temp", vs.Implies(retErr != nil && fsFaults <= vs.Old(fsFaults)+1, vs.ForallString(func(q string) bool {
+		return vs.Implies(fsTemps[q] && !vs.Old(fsTemps[q]), fsKind[q] == kindAbsent)
+	})))
+	vs.Ensures("others_untouched", vs.ForallString(func(q string) bool {
+		return vs.Implies(q != finalPath(targetDir, fileName) && vs.Old(fsKind[q]) != kindAbsent, unchangedEntry(q))
+	}))
+	vs.Ensures("creates_only_under_target", vs.ForallString(func(q string) bool {
+		return vs.Implies(vs.Old(fsKind[q]) == kindAbsent && fsKind[q] != kindAbsent,
+			q == finalPath(targetDir, fileName) || fsTemps[q] || (fsKind[q] == kindDir && (q == targetDir || pathUnder(q, targetDir))))
+	}))
+	vs.Modifies(fsKind, fsContent, fsMode, fhName, fsTemps, fsFaults)
+	vs.Allocates()
+	return
+}
